@@ -58,6 +58,87 @@ def run_harness(chk, exe, lines, ntapes, gadir, nshards):
     return res
 
 
+def resolve_symbols(lib, names):
+    """Map 'd+0x<vaddr>' / 't+0x<tls offset>' to symbol names with readelf (the library is built with -g, not stripped)."""
+    rc, out, err = run(["readelf", "-sW", lib], timeout=120)
+    syms = []
+    for ln in out.splitlines():
+        f = ln.split()
+        if len(f) >= 8 and f[3] in ("OBJECT", "TLS"):
+            try:
+                syms.append((f[3], int(f[1], 16), int(f[2]), f[7]))
+            except ValueError:
+                pass
+    res = {}
+    for n in names:
+        kind, off = n[0], int(n[2:], 16)
+        res[n] = n
+        for (typ, val, size, name) in syms:
+            if (typ == "TLS") == (kind == "t") and val <= off < val + max(size, 1):
+                rc2, dem, _ = run(["c++filt", name], timeout=20)
+                res[n] = "%s (%s)" % (dem.strip() or name, n)
+                break
+    return res
+
+
+def statics_monitor(chk, quick):
+    exe = build.harness("plain", "c07_statics", ["c07_statics.cc"], libs="-ldl")
+    lines = []
+    for n in schemes.background_names():
+        lines.append("B %s %s" % (n, " ".join("%.17g" % t for t in schemes.harvest_thresholds(schemes.parts_of(n)))))
+    table = schemes.ref_dbd_table()
+    rng = Rng(chk.seed, 708)
+    cells = [(i, l, m) for i in sorted(table) for l in sorted(table[i]["levels"]) for m in (1, 2, 3, 7, 9, 10, 11, 12, 17, 20) if genmon.rule_accepts(table, i, l, m)]
+    for (i, l, m) in rng.sample(cells, 60 if quick else 400):
+        lines.append("D %s %d %d" % (i, l, m))
+    f = tempfile.NamedTemporaryFile("w", suffix=".spec", delete=False, dir=build.variant_dir("plain"))
+    f.write("\n".join(lines) + "\n")
+    f.close()
+    n_iid = 20 if quick else 200
+    max_states = 300 if quick else 3000
+    nsh = NCPU
+
+    def one(shard):
+        return (shard,) + run([exe, "scan", f.name, str(chk.seed), str(n_iid), str(max_states), str(shard), str(nsh)], timeout=7200, env=build.lib_env("plain"))
+
+    info = {}
+    cands = []
+    for shard, rc, out, err in pmap(one, list(range(nsh)), jobs=NCPU):
+        recs = [json.loads(l) for l in out.splitlines() if l.startswith("{")]
+        if rc != 0 or not recs:
+            chk.inconclusive_("c07_statics shard %d exited %s: %s" % (shard, rc, err[-300:]))
+            continue
+        r = recs[0]
+        if shard == 0:
+            info = {k: r[k] for k in ("words", "items", "configs", "shots", "words_changed_once", "mutable_words", "mutable_names", "states", "pointers_among_mutable")}
+            info["injected_shots"] = 0
+            info["candidates"] = 0
+        info["injected_shots"] = info.get("injected_shots", 0) + r["injected_shots"]
+        info["candidates"] = info.get("candidates", 0) + r["candidates"]
+        cands += r["candidate_list"]
+    if info.get("mutable_words"):
+        lib = os.path.join(build.variant_dir("plain"), "libBxDecay0.so")
+        names = resolve_symbols(lib, info["mutable_names"])
+        info["mutable_symbols"] = [names[n] for n in info["mutable_names"]]
+        confirmed = 0
+        for c in cands[:12]:
+            env = build.lib_env("plain")
+            o1 = run([exe, "replay", f.name, str(chk.seed), str(c["a"]), str(c["x"]), str(n_iid)], timeout=600, env=env)[1]
+            o2 = run([exe, "replay", f.name, str(chk.seed), "-1", str(c["x"]), str(n_iid)], timeout=600, env=env)[1]
+            if o1.strip() and o2.strip() and o1 != o2:
+                confirmed += 1
+                chk.violation("hidden-static|" + ",".join(info["mutable_symbols"])[:160],
+                              "the event of %s on a fixed tape depends on what was shot before it in the same process: after one shot of %s the event differs from the one "
+                              "obtained in a fresh process; the library keeps mutable static state in %s" % (c["x_label"], c["a_label"], "; ".join(info["mutable_symbols"])),
+                              {"history_1": "fresh process: shoot X", "history_2": "fresh process: shoot A, then shoot X", "A": c["a_label"], "X": c["x_label"],
+                               "event_after_A": o1[:1500], "event_alone": o2[:1500], "replay": "%s replay <spec> %d %d %d %d" % (exe, chk.seed, c["a"], c["x"], n_iid)})
+        info["candidates_confirmed_by_real_replay"] = confirmed
+        if info.get("pointers_among_mutable"):
+            chk.note("mutable static words hold addresses (heap data behind a static root): state injection skipped, replay permutations only")
+    os.unlink(f.name)
+    return info
+
+
 def main():
     chk = Check("C07", "exploration")
     quick = chk.tier == "quick"
@@ -88,6 +169,9 @@ def main():
             for m in r["mismatches"]:
                 chk.violation(m["key"], "%s: event differs from the canonical one %s [%d cases]" % (r["config"], m["detail"], m["count"]),
                               {"config": r["config"], "canonical": m["ref"], "after_history": m["port"], "tape": m["tape"], "detail": m["detail"]})
+    # ---- hidden-static-state monitor (writable static storage of the library watched at quiescent points)
+    st = statics_monitor(chk, quick)
+    evals += st.get("shots", 0) + st.get("injected_shots", 0)
     chk.require(nconf >= 200, "only %d configurations explored" % nconf)
     chk.require(kinds >= 9, "only %d history kinds exercised" % kinds)
     chk.coverage.update({
@@ -96,11 +180,15 @@ def main():
         "rule": "for each configuration and tape T the canonical event (fresh generator, fresh event, first shot) is compared bit for bit with the "
                 "event after each history: k prior shots (1, 7, 1000), reused event object, event pre-filled with 0..150 junk particles, capacity "
                 "forced to 1..9/16/200, moved-from event, other instances (incl. failed and gA initialisations) created/shot/reset/destroyed in between, "
-                "reset()+identical re-configuration, initialisation with another deviate source, two live twins alternating; "
+                "reset()+identical re-configuration, initialisation with another deviate source, two live twins alternating; static-storage monitor: the "
+                "writable static storage of libBxDecay0.so (.data/.bss and this thread's TLS block) is snapshotted after every shot of a pool of steered "
+                "runs; words that change more than once are mutable static state; their observed end-of-shot values are injected before every pool shot and "
+                "any dependence is confirmed by real replays ([A; X] vs [X]) in fresh processes; "
                 "distinct = configurations x history kinds",
         "samples": samples or [{"note": "none"}],
         "configurations": nconf,
         "history_kinds": kinds,
+        "static_storage_monitor": st,
     })
     chk.assumptions += ["bit-identity is demanded only between runs of the same binary on the same inputs"]
     chk.finish()
